@@ -5059,7 +5059,11 @@ tsk_treeseq_split_edges(const tsk_treeseq_t *self, double time, tsk_flags_t flag
     tsk_bookmark_t sort_start;
 
     memset(output, 0, sizeof(*output));
-    if (split_edge == NULL) {
+    if (tables != NULL) {
+        /* tables is freed at out: also when it was never initialised */
+        memset(tables, 0, sizeof(*tables));
+    }
+    if (tables == NULL || split_edge == NULL) {
         ret = tsk_trace_error(TSK_ERR_NO_MEMORY);
         goto out;
     }
